@@ -379,6 +379,23 @@ def main(rep, tier, seed):
             continue
         for it, o in zip(sub, outl):
             parts = o.split(";")
+            # tested-only clause (no theorem): scaling a 32/64-bit sample by 1.0 stays in range and within
+            # 2^(bits - prec) of the sample; exact for the narrower formats (also proved: c03_mul_one_exact)
+            if not is_float(it["fmt"]):
+                fl = float_of(it["fmt"])
+                one, prec, b = fbits(fl, 1.0), (24 if fl == "f32" else 53), BITS[CODE[it["fmt"]]]
+                lo, hi = rng_of(it["fmt"])
+                for op, ob in zip(it["ops"], parts):
+                    if op[0] == "smul" and op[1][1] == one:
+                        stats["scale_by_one_checked"] = stats.get("scale_by_one_checked", 0) + 1
+                        tk = ob.split()
+                        tol = 0 if b <= prec else 1 << (b - prec)
+                        if len(tk) != 2 or tk[0] != "0" or not (lo <= int(tk[1]) <= hi) or abs(int(tk[1]) - op[1][0]) > tol:
+                            rep.violation(f"scale_by_one_{it['fmt']}_{op[1][0]}", {
+                                "kind": "mul_amp(s, 1.0) is not within the float companion's precision of s (or out of range, or panicked)",
+                                "format": it["fmt"], "sample": op[1][0], "observed": ob, "tolerance": tol,
+                                "profile": "debug" if mode == 0 else "release",
+                                "case": dict(fmt=it["fmt"], n=1, bare=it["bare"], mode=mode, kind="sample", ops=[op])})
             stats["evaluations"] += len(it["ops"])
             stats["panics"] += sum(1 for p in parts if p.startswith("8 "))
             for i in nontrivial_ops(it, parts):
@@ -433,7 +450,7 @@ def finish(rep, info, stats, times, fb):
         "distinct_nontrivial": stats.get("nontrivial", 0),
         "rule": "every op of every case is one evaluation, compared exactly (values, logs of closure calls, iterator call counts, panics). Cases: Sample::{add_amp,mul_amp,to_signed_sample,to_float_sample,EQUILIBRIUM} on boundary-structured + random values of all 14 formats; every Frame method on [S; N] for N=1..32 over u8,i16,I24,u32,f32,f64 and N in {1,2,3,8,32} over the other 8 formats, and on every bare sample type; from_samples with every iterator length 0..N+2; both build profiles. non-trivial = an offset/scale/add_amp/mul_amp with a non-zero amplitude on an unsigned or custom-width (24/48-bit) format, or a frame op on N >= 2 channels with distinct values, or a from_samples with fewer than N items (distinct (format, N, op, arguments))",
         "samples": stats.get("samples", []), "input_distribution": dict(stats.get("hist", {}), panic_observations=stats.get("panics", 0)),
-        "disagreements": stats.get("bad", 0), "timing": times, "float_model_validation": fb,
+        "disagreements": stats.get("bad", 0), "scale_by_one_bound_checked": stats.get("scale_by_one_checked", 0), "timing": times, "float_model_validation": fb,
         "explanation": "theorems: identities of add_amp/mul_amp per format, re-centring, per-channel / in-order / no-UB theorems for every N; tie: translator for the companion table and conversions + the executable model run by coqc on the same cases as the crates through the public traits, all observations compared exactly",
     }
     return rep.finish("proof", cov, [
